@@ -79,7 +79,10 @@ func getDocumentTitle(root *html.Node, wc stringutil.WordCounter) string {
 	}
 
 	if titleNode != nil {
-		origTitle = domutil.InnerText(titleNode)
+		// The text of <title> is the title whatever attributes the element
+		// carries: it is never displayed, so hidden or display:none on it do
+		// not make the page untitled.
+		origTitle = strings.Join(strings.Fields(dom.TextContent(titleNode)), " ")
 		curTitle = origTitle
 	}
 
